@@ -60,6 +60,7 @@ type Case struct {
 	Unit  string `json:"unit,omitempty"`
 	Reps  int    `json:"reps,omitempty"`
 	Tail  string `json:"tail,omitempty"`
+	Head  string `json:"head,omitempty"` // depth: text before the repeated unit
 	Raw   []byte `json:"raw,omitempty"`
 	Text  string `json:"text,omitempty"`
 }
@@ -127,7 +128,7 @@ func (c *Case) bytesOf() []byte {
 		out = append(out, f[:c.Idx]...)
 		return append(out, f[c.Idx+1:]...)
 	case "depth":
-		return []byte(strings.Repeat(c.Unit, c.Reps) + c.Tail)
+		return []byte(c.Head + strings.Repeat(c.Unit, c.Reps) + c.Tail)
 	}
 	lib.Fatal("unknown case kind %q", c.Kind)
 	return nil
@@ -585,7 +586,7 @@ func (a *agg) crash(space string, c Case, class, detail string) {
 
 func (c Case) lenOr() int {
 	if c.Kind == "depth" {
-		return len(c.Unit)*c.Reps + len(c.Tail)
+		return len(c.Head) + len(c.Unit)*c.Reps + len(c.Tail)
 	}
 	return len(c.Raw)
 }
@@ -697,6 +698,25 @@ var depthUnits = []Case{
 	{Kind: "depth", Unit: "if x:\n ", Tail: "pass\n", Reps: 1000000},     // NB: indentation does not grow; rejected early
 	{Kind: "depth", Unit: "x = 1\n", Tail: "", Reps: 1000000},            // a long, flat, valid file (control)
 	{Kind: "depth", Unit: "x = [1, 2, 3] + y\n", Tail: "", Reps: 100000}, // ditto
+}
+
+// lengthUnits: single TOKENS of every length 1..96 (fixed-size scratch buffers, length checks that are off by one) and of
+// the ladder's lengths: integer literals (plain, negative, octal), identifiers, strings of the three kinds, comments.
+var lengthUnits = []Case{
+	{Kind: "depth", Head: "x = ", Unit: "1", Tail: "\n", Reps: 1000000},
+	{Kind: "depth", Head: "x = -", Unit: "1", Tail: "\n", Reps: 1000000},
+	{Kind: "depth", Head: "x = 0o", Unit: "7", Tail: "\n", Reps: 1000000},
+	{Kind: "depth", Head: "x = 0", Unit: "0", Tail: "\n", Reps: 1000000},
+	{Kind: "depth", Head: "f(", Unit: "9", Tail: ")\n", Reps: 1000000},
+	{Kind: "depth", Head: "x = [1, ", Unit: "1", Tail: "]\n", Reps: 1000000},
+	{Kind: "depth", Head: "", Unit: "x", Tail: " = 1\n", Reps: 1000000},
+	{Kind: "depth", Head: "x = \"", Unit: "a", Tail: "\"\n", Reps: 1000000},
+	{Kind: "depth", Head: "x = f\"", Unit: "a", Tail: "\"\n", Reps: 1000000},
+	{Kind: "depth", Head: "x = f\"{", Unit: "a", Tail: "}\"\n", Reps: 1000000},
+	{Kind: "depth", Head: "x = r'", Unit: "\\\\", Tail: "'\n", Reps: 1000000},
+	{Kind: "depth", Head: "x = \"\"\"", Unit: "a\n", Tail: "\"\"\"\n", Reps: 1000000},
+	{Kind: "depth", Head: "#", Unit: "c", Tail: "\nx = 1\n", Reps: 1000000},
+	{Kind: "depth", Head: "x = 1", Unit: " ", Tail: "\n", Reps: 1000000},
 }
 
 type ladderRow struct {
@@ -836,7 +856,10 @@ func main() {
 	var rows []ladderRow
 	var rowsMu sync.Mutex
 	da := &agg{counts: map[string]int{}, best: map[string]ViolRec{}, perSpace: map[string]int64{}}
-	units := make(chan Case, len(depthUnits))
+	units := make(chan Case, len(depthUnits)+len(lengthUnits))
+	for _, u := range lengthUnits {
+		units <- u
+	}
 	for _, u := range depthUnits {
 		units <- u
 	}
@@ -847,7 +870,26 @@ func main() {
 			defer wg.Done()
 			for u := range units {
 				top := min(u.Reps, ladderCap)
-				for _, reps := range ladder {
+				rungs := ladder
+				if u.Head != "" || u.Unit == "x" {
+					// a token-length unit: every length up to 96 first (one process for all of them), then the ladder
+					w := spawn()
+					ua := &agg{counts: map[string]int{}, best: map[string]ViolRec{}, perSpace: map[string]int64{}}
+					tmpl := u
+					tmpl.Reps = 0
+					t0 := time.Now()
+					process(&w, ua, "depth", Batch{Case: tmpl, Lo: 1, Hi: 97, HangSec: 60})
+					w.kill()
+					oc := ua.diffCounts(nil)
+					rowsMu.Lock()
+					rows = append(rows, ladderRow{u.Head + u.Unit + "*" + u.Tail, 96, len(u.Head) + len(u.Unit)*96 + len(u.Tail), "every length 1..96: " + oc, time.Since(t0).Seconds()})
+					da.absorb(ua)
+					rowsMu.Unlock()
+					if oc != "ok" {
+						continue
+					}
+				}
+				for _, reps := range rungs {
 					if reps > top {
 						break
 					}
